@@ -90,20 +90,22 @@ def contracts():
           ("before_tail", None, 1, "proof { assert(root_certs@.take(root_certs@.len() as int) =~= root_certs@); }")],
         rewrites=[("T-PARSE", r"(?P<e>\"[^\"]*\"|\w+)\.parse\(\)", r"crate::reqwest::header::parse_header_value(&\g<e>)", None)])
     c["get"] = FnSpec(ret="r", ghost=True, sig="    requires" + NET_PRE + "    ensures" + NET_POST + """
-        final(w).net.posts == old(w).net.posts,
+        final(w).net.posts == old(w).net.posts, final(w).net.waited == old(w).net.waited,
         r is Ok ==> final(w).net.last_success, //@C08.ok_is_2xx
 """)
     c["new_nonce"] = FnSpec(ret="r", ghost=True, sig="    requires" + NET_PRE + "    ensures" + NET_POST + """
-        final(w).net.posts == old(w).net.posts,
+        final(w).net.posts == old(w).net.posts, final(w).net.waited == old(w).net.waited,
 """)
     c["post"] = FnSpec(ret="r", ghost=True, sig="    requires" + NET_PRE + DB_PRE + "    ensures" + NET_POST + """
         final(w).net.posts <= old(w).net.posts + 10, //@C08.at_most_10_transmissions,C07.every_request_is_given_up_after_a_bounded_number_of_transmissions
+        final(w).net.waited <= old(w).net.waited + POST_WAIT_NS(), //@C07.the_waits_between_transmissions_are_bounded
         r is Ok ==> final(w).net.last_success && final(w).net.posts > old(w).net.posts, //@C08.ok_is_2xx
         r matches Ok(v) ==> v.body@ == final(w).net.last_body, //@C02.body_is_response_body
 """, loops={1: "    invariant" + LOOP_NET_INV + DB_PRE + """
         roots_match(client.roots@, w.net.trust_roots), !client.insecure@,
         old(w).net.posts <= w.net.posts,
         w.net.posts <= old(w).net.posts + $ROUND, //@C08.one_transmission_per_round,C07.every_request_is_given_up_after_a_bounded_number_of_transmissions
+        w.net.waited <= old(w).net.waited + $ROUND * FAIL_WAIT_NS(), //@C07.the_waits_between_transmissions_are_bounded
         crate::DEFAULT_HTTP_FAIL_NB_RETRY == 10, //@C08.retry_constant_is_10
         // a further round is reached only after a non-2xx answer whose problem document names a recoverable type
         $ROUND > 0 ==> !w.net.last_success && recoverable_body(w.net.last_body), //@C08.retry_only_after_recoverable_error
@@ -124,17 +126,32 @@ def contracts():
     # polling (macro-expanded)
     pool_sig = "    requires" + NET_PRE + DB_PRE + "        forall|o| break_fn.requires((o,)),\n    ensures" + NET_POST + """
         final(w).net.posts <= old(w).net.posts + 20 * 10, //@C08.at_most_20_polls,C07.every_poll_is_given_up_after_a_bounded_number_of_requests
+        // whatever the server answers, polling takes a bounded time: a fixed pause before each poll, the bounded waits of each request
+        final(w).net.waited <= old(w).net.waited + crate::DEFAULT_POOL_NB_TRIES as nat * (POOL_WAIT_NS() + POST_WAIT_NS()), //@C07.polling_ends_in_bounded_time
         r matches Ok(obj) ==> break_fn.ensures((&obj,), true), //@C08.poll_ok_means_condition_met
 """
     pool_loop = {1: "    invariant" + LOOP_NET_INV + DB_PRE + """
         forall|o| break_fn.requires((o,)),
         crate::DEFAULT_POOL_NB_TRIES == 20, //@C08.poll_constant_is_20
         w.net.posts <= old(w).net.posts + $ROUND * 10, //@C08.one_request_per_poll,C07.every_poll_is_given_up_after_a_bounded_number_of_requests
+        w.net.waited <= old(w).net.waited + $ROUND * (POOL_WAIT_NS() + POST_WAIT_NS()), //@C07.polling_ends_in_bounded_time
 """}
-    c["pool_authorization"] = FnSpec(ret="r", ghost=True, sig=pool_sig, loops=pool_loop, counted={1: "ROUND"})
-    c["pool_order"] = FnSpec(ret="r", ghost=True, sig=pool_sig, loops=pool_loop, counted={1: "ROUND"})
+    pool_at = [("loop_start", None, 1, """
+            proof {
+                let k__ = $ROUND; let kk__ = POOL_WAIT_NS() + POST_WAIT_NS(); let n__ = crate::DEFAULT_POOL_NB_TRIES as nat;
+                assert(k__ + 1 <= n__);
+                assert((k__ + 1) * kk__ == k__ * kk__ + kk__) by(nonlinear_arith);
+                assert((k__ + 1) * kk__ <= n__ * kk__) by(nonlinear_arith) requires k__ + 1 <= n__;
+            }"""), ("loop_end", None, 1, """
+            proof {
+                let k__ = $ROUND; let kk__ = POOL_WAIT_NS() + POST_WAIT_NS();
+                assert((k__ + 1) * kk__ == k__ * kk__ + kk__) by(nonlinear_arith);
+                assert((k__ + 1) * 10 == k__ * 10 + 10);
+            }""")]
+    c["pool_authorization"] = FnSpec(ret="r", ghost=True, sig=pool_sig, loops=pool_loop, counted={1: "ROUND"}, at=pool_at)
+    c["pool_order"] = FnSpec(ret="r", ghost=True, sig=pool_sig, loops=pool_loop, counted={1: "ROUND"}, at=pool_at)
     c["get_certificate"] = FnSpec(ret="r", ghost=True, sig="    requires" + NET_PRE + DB_PRE + "    ensures" + NET_POST + """
-        final(w).net.posts <= old(w).net.posts + 10,
+        final(w).net.posts <= old(w).net.posts + 10, final(w).net.waited <= old(w).net.waited + POST_WAIT_NS(),
         r matches Ok(s) ==> s@ == final(w).net.last_body && final(w).net.last_success, //@C02.certificate_is_response_body
 """)
     # error classification
@@ -150,7 +167,7 @@ def contracts():
 def build():
     u = Unit("http", "acmed")
     u.prelude("err", "log", "stdx", "time", "world", "titer", "seqlemmas", "reqwest")
-    u.ghost_call("sleep", quals=("",))
+    u.ghost_call("sleep", quals=("", "thread"))
     u.ghost_call("send", method=True)
     for cst in ["DEFAULT_HTTP_FAIL_NB_RETRY", "DEFAULT_HTTP_FAIL_WAIT_SEC", "DEFAULT_POOL_NB_TRIES",
                 "DEFAULT_POOL_WAIT_SEC", "APP_NAME", "APP_VERSION", "MAX_RATE_LIMIT_SLEEP_MILISEC",
@@ -184,7 +201,7 @@ def build():
     # --- http module
     u.module("http", "use crate::*;\nuse crate::acme_proto::structs::*;\nuse crate::endpoint::Endpoint;\n"
              "use crate::acme_common::error::Error;\nuse crate::reqwest;\nuse crate::reqwest::header::{HeaderMap, HeaderValue};\n"
-             "use crate::reqwest::{header, Client, ClientBuilder, Response};\nuse crate::rootfs::File;\nuse std::{thread, time};")
+             "use crate::reqwest::{header, Client, ClientBuilder, Response};\nuse crate::rootfs::File;\nuse std::time;\nuse crate::vthread as thread;")
     for cst in ["CONTENT_TYPE_JOSE", "CONTENT_TYPE_JSON", "CONTENT_TYPE_PEM", "HEADER_NONCE", "HEADER_LOCATION"]:
         u.take(H, cst, "http")
     u.take(H, "ValidHttpResponse", "http")
@@ -210,15 +227,15 @@ def build():
     # --- acme_proto::http : polling (macro-expanded) and the thin wrappers
     u.macro(PH, "pool_object")
     u.module("acme_proto::http", "use crate::*;\nuse crate::acme_proto::structs::*;\nuse crate::endpoint::Endpoint;\n"
-             "use crate::http;\nuse crate::http::*;\nuse crate::acme_common::error::Error;\nuse std::{thread, time};")
+             "use crate::http;\nuse crate::http::*;\nuse crate::acme_common::error::Error;\nuse std::time;\nuse crate::vthread as thread;")
     u.verify(PH, "pool_authorization", "acme_proto::http", props=["C08", "C09", "C04", "C18", "C07"], fns={"pool_authorization": c["pool_authorization"]})
     u.verify(PH, "pool_order", "acme_proto::http", props=["C08", "C09", "C04", "C18", "C07"], fns={"pool_order": c["pool_order"]})
     u.verify(PH, "get_certificate", "acme_proto::http", props=["C02", "C09", "C04", "C18"], fns={"get_certificate": c["get_certificate"]})
-    simple = "    requires" + NET_PRE + DB_PRE + "    ensures" + NET_POST + "        final(w).net.posts <= old(w).net.posts + 10,\n"
+    simple = "    requires" + NET_PRE + DB_PRE + "    ensures" + NET_POST + "        final(w).net.posts <= old(w).net.posts + 10, final(w).net.waited <= old(w).net.waited + POST_WAIT_NS(),\n"
     for name in ["post_jose_no_response", "new_account", "new_order", "get_authorization", "finalize_order"]:
         u.verify(PH, name, "acme_proto::http", props=["C09", "C04", "C18"], fns={name: FnSpec(ret="r", ghost=True, sig=simple)})
     u.verify(PH, "refresh_directory", "acme_proto::http", props=["C09", "C04", "C18"],
-             fns={"refresh_directory": FnSpec(ret="r", ghost=True, sig="    requires" + NET_PRE + "    ensures" + NET_POST.replace("        final(endpoint).dir == old(endpoint).dir,", "       ") + "        final(w).net.posts == old(w).net.posts,\n")})
+             fns={"refresh_directory": FnSpec(ret="r", ghost=True, sig="    requires" + NET_PRE + "    ensures" + NET_POST.replace("        final(endpoint).dir == old(endpoint).dir,", "       ") + "        final(w).net.posts == old(w).net.posts, final(w).net.waited == old(w).net.waited,\n")})
     return u
 
 
@@ -282,6 +299,10 @@ impl crate::serde::de::DeserializeOwned for AccountResponse {}
 """
 
 HTTP_SPEC = """
+// the pauses of the HTTP layer, in nanoseconds, as the constants of main.rs give them (whatever their values are: the bounds below are finite)
+pub open spec fn FAIL_WAIT_NS() -> nat { crate::DEFAULT_HTTP_FAIL_WAIT_SEC as nat * 1_000_000_000 }
+pub open spec fn POST_WAIT_NS() -> nat { crate::DEFAULT_HTTP_FAIL_NB_RETRY as nat * FAIL_WAIT_NS() }
+pub open spec fn POOL_WAIT_NS() -> nat { crate::DEFAULT_POOL_WAIT_SEC as nat * 1_000_000_000 }
 pub uninterp spec fn json_spec<T>(body: Seq<char>) -> Option<T>;
 pub open spec fn nonce_view(n: Option<String>) -> Option<Seq<char>> {
     match n { Some(s) => Some(s@), None => None }
